@@ -16,7 +16,7 @@ OPAQUE = ("std::time::Instant", "std::time::Duration", "std::net::SocketAddr")
 
 
 class Run:
-    def __init__(self, prog, key, names=None, hooks=None, pre_hooks=None, local_models=None, setup=None, track_content=False, bool_vars=True, max_parts=None, def_models=None):
+    def __init__(self, prog, key, names=None, hooks=None, pre_hooks=None, local_models=None, setup=None, track_content=False, bool_vars=True, max_parts=None, def_models=None, path_sensitive=None):
         self.prog = prog
         self.it = it = Interp(prog, M, INVARIANTS, trace=__import__("os").environ.get("E2_TRACE"))
         it.bool_vars = bool_vars
@@ -37,6 +37,11 @@ class Run:
             st.cells[it.cell_of(fr, l)] = it.top_of(st, body, body.locals[l]["ty"], hint=hint, region_prefix=fr.id + ":a%d" % l)
         st.cells["ghost:trace"] = Trace()
         st.cells["ghost:pc"] = Trace()
+        it.path_sensitive = bool_vars if path_sensitive is None else path_sensitive
+        if it.path_sensitive:
+            st.cells["ghost:path"] = Trace()
+            if not max_parts:
+                it.max_parts = 4000
         a1 = st.cells.get(it.cell_of(fr, 1)) if body.arg_count else None
         self.self_cell = a1.cell if isinstance(a1, Ref) and not a1.path else None
         if self.self_cell:
@@ -1107,6 +1112,24 @@ READ_HOWS = {"ref", "copy", "discr", "len"}
 def touchers(prog, chk, rule, adt_variant, field, readers, writers, floor):
     from e1 import field_accesses
     accs = field_accesses(prog, adt_variant, field)
+    # private helpers: a non-exported function all of whose callers are allowed is allowed as its callers are (its
+    # effects are part of their tables, which analyse through it)
+    callers = {}
+    for k_, edges in prog.call_graph().items():
+        kk = re.sub(r"::\{closure#\d+\}", "", k_)
+        for bi, t, tg, cb in edges:
+            for x in tg:
+                if x[0] == "local":
+                    callers.setdefault(re.sub(r"::\{closure#\d+\}", "", x[1]), set()).add(kk)
+
+    def allowed(fn, pats, depth=0):
+        if any(re.search(p, fn) for p in pats):
+            return True
+        info = prog.fns.get(fn) or {}
+        cs = callers.get(fn, set()) - {fn}
+        if depth < 3 and cs and info.get("exported") is False and info.get("pub") is False:
+            return all(allowed(c_, pats, depth + 1) for c_ in cs)
+        return False
     seen = {}
     for a in accs:
         fn = re.sub(r"::\{closure#\d+\}", "", a["body"])
@@ -1116,9 +1139,9 @@ def touchers(prog, chk, rule, adt_variant, field, readers, writers, floor):
         if re.match(r"^<.* as std::fmt::Debug>::fmt$", fn) and kind == "read":
             ok = True
         elif kind == "read":
-            ok = any(re.search(p, fn) for p in list(readers) + list(writers))
+            ok = allowed(fn, list(readers) + list(writers))
         else:
-            ok = any(re.search(p, fn) for p in writers)
+            ok = allowed(fn, list(writers))
         chk.ob(rule, "%s.%s|%s|%s" % (adt_variant.split("::")[-2] if adt_variant.count("::") > 2 else adt_variant, field, fn.split("::", 2)[-1], kind), ok, a["where"],
                detail="%s of %s in %s: this function is not among the field's %s" % (kind, field, fn, "writers" if kind == "write" else "readers"),
                how="every place projecting through the field, by enclosing function")
